@@ -284,6 +284,14 @@ def recycle_search(ctx, shim, r, n):
             for txt in ("61", "61,61", "62,61,62"):
                 for fin in ("shape -", "plan -"):
                     cases.append((xf, [f"pushn 62 {big}", "flags 0", "shape -"], [f"push {txt}", "flags 0", "level 0"], fin))
+    # the other way round: an earlier use that ENDS UNSUCCESSFUL (the expansion is refused at the length limit, with and
+    # without a long text before it), then an ordinary request: a failure must not outlive clear()
+    for xf in expander_fonts():
+        for early in (["push 61"], ["push 61,62,61"], ["pushn 62 300", "push 61"]):
+            for txt in ("62", "62,62,62", "61"):
+                for fin in ("shape -", "plan -"):
+                    cases.append((xf, early + ["flags 0", r.choice(["shape -", "plan -"])],
+                                  [f"push {txt}", f"flags {r.choice([0, 1, 3])}", f"level {r.below(3)}"], fin))
     for _ in range(n):
         f = r.choice(fonts)
         hist = history_ops(r, scripts, r.range(1, 8))
@@ -343,8 +351,15 @@ def recycle_search(ctx, shim, r, n):
         if fa != fb:
             diff = {k: (fa.get(k), fb.get(k)) for k in set(fa) | set(fb) if fa.get(k) != fb.get(k)}
             bad.append((len(lines[2 * i]), i, f"recycled buffer differs from a fresh one before shaping: {diff}", sa[-3], sb[-3]))
-        elif ra != rb:
+        elif kv(ra).get("dump") != kv(rb).get("dump"):
             bad.append((len(lines[2 * i]), i, "shaping result differs between recycled and fresh buffer", ra[:400], rb[:400]))
+        elif ra != rb:
+            # same glyphs, but a field of the returned glyph buffer (read through the hook) differs: reported after the
+            # cases whose output differs
+            da, db = kv(ra), kv(rb)
+            diff = sorted(k for k in set(da) | set(db) if da.get(k) != db.get(k))
+            bad.append((10 ** 9 + len(lines[2 * i]), i, "same glyphs, but the returned glyph buffer differs between recycled "
+                        f"and fresh buffer in the fields {diff} (state line of harness `lc`)", ra[:400], rb[:400]))
         if len(bad) > nb:
             badkinds[kind] = badkinds.get(kind, 0) + 1
     bad.sort()
